@@ -1,6 +1,8 @@
-(* C06, layer (C): exactness of the rule (MathComp; any field of characteristic 0). *)
+(* C06, layer (C): exactness of the rule (MathComp; any field of characteristic 0), and its composition with the
+   regenerated tables of layer (B). *)
+From Coq Require Import ZArith.
 From mathcomp Require Import all_ssreflect all_algebra.
-Require Import NDT.Theory.RuleExact.
+Require Import NDT.Gen.Spec NDT.Arith.OpsField NDT.Theory.RuleTables NDT.Theory.RuleTablesNat NDT.Theory.RuleExact NDT.Theory.RuleComposed.
 Import GRing.Theory.
 Local Open Scope ring_scope.
 
@@ -20,3 +22,17 @@ Theorem C06_sum_progression (V : zmodType) (off st T : nat) (G : nat -> V) : (0 
   (forall k, (k < off + st * T)%N -> ~~ ((off <= k)%N && (st %| k - off)%N) -> G k = 0) ->
   \sum_(0 <= k < off + st * T) G k = \sum_(0 <= j < T) G (off + st * j)%N.
 Proof. exact: sum_progression. Qed.
+
+(* (B) + (C) composed: for every method in {central, forward, backward, complex}, every n >= 1 and order >= 1, with the progression
+   (offset, step), the number of terms, the row, c_0 and the sign flip READ FROM THE REGENERATED TABLES and the integer Taylor
+   signature of the stencil the name dispatch selects: a rule solving the moment system of _fd_matrix gives n! g_n *)
+Theorem C06_rule_exact_from_tables (F : fieldType) (char0 : [char F] =i pred0) (m : method) (n order : Z) (rho h : F) (g w : nat -> F) :
+  Z.le (Zpos xH) n -> Z.le (Zpos xH) order -> m = Central \/ m = Forward \/ m = Backward \/ m = Complex -> h != 0 ->
+  let off := offN m n order in let st := stN m n order in let T := termsN m n order in let r := rowN m n order in
+  let c0 : F := field_ofZ F (c0Z m n order) in
+  let fl : F := if flip_fd_rule m n order then -1 else 1 in
+  let sig := fun k : nat => field_ofZ F (sigmaN m n order k) in
+  (forall j, (j < T)%N -> \sum_(0 <= i < T) w i * (c0 / (off + st * j)`!%:R * rho ^+ (i * (off + st * j))) = (j == r)%:R) ->
+  fl * (\sum_(0 <= i < T) w i * (\sum_(0 <= k < off + st * T) sig k * g k * (h * rho ^+ i) ^+ k)) / h ^+ (Z.to_nat n)
+  = (Z.to_nat n)`!%:R * g (Z.to_nat n).
+Proof. move=> Hn Ho Hm h0 off st T r c0 fl sig wM. exact: (rule_exact_from_tables char0 Hn Ho Hm g h0 wM). Qed.
